@@ -400,6 +400,34 @@ var c09Families = []c09Family{
 	{Name: "v6/container-patterns", V6: true, Variants: 2 * len(c09Patterns), MaxN: 16384, Make: func(n, variant int) []byte {
 		return c09Nest(n, c09Patterns[variant%len(c09Patterns)], variant >= len(c09Patterns))
 	}},
+	{Name: "v6/container-tail-junk", V6: true, Variants: 7 * 4 * 3, MaxN: 4096, Make: func(n, variant int) []byte {
+		// containers nested along one path where EVERY level ends in something that does not tile: 1..3 pad octets,
+		// a small option and then pad octets, half an option header, an option announcing more than is left. The
+		// datagram is malformed at every level at once; finding that out must not cost more than reading it (a
+		// decoder that retries, back-tracks or re-parses per level pays per level, multiplied down the nest)
+		c := c09Containers[variant%7]
+		pad := make([]byte, 1+variant/28%3)
+		var tail []byte
+		switch variant / 7 % 4 {
+		case 0:
+			tail = pad
+		case 1:
+			tail = append(v6opt(13, []byte{0, 1, 'x'}), pad...)
+		case 2:
+			tail = []byte{0, 13}
+		default:
+			tail = []byte{0, 13, 0xff, 0xff, 1}
+		}
+		var inner []byte
+		for {
+			body := append(append(append([]byte{}, c.Hdr...), inner...), tail...)
+			if len(body)+4 > n-4 {
+				break
+			}
+			inner = v6opt(c.Code, body)
+		}
+		return append([]byte{1, 1, 2, 3}, inner...)
+	}},
 	{Name: "v6/announced-length-overrun", V6: true, Variants: 20, Make: func(n, variant int) []byte {
 		// items whose announced length exceeds what is left, repeated: the datagram is rejected (or the
 		// item skipped) and must cost no more than its size
